@@ -82,15 +82,20 @@ def prune_cache(keep, max_entries=6):
 
 
 class Violation:
-    def __init__(self, rule, key, msg, loc=None, detail=None):
+    """`undecided` = the rule could not locate or classify the construct it reasons about (anchor lost, shape not
+    understood, instance count below the confirmed floor). That is not evidence that the property is broken - a
+    refactoring does it too - so it is reported as UNDECIDED, never as VIOLATION (see DESIGN.md section 9.7)."""
+
+    def __init__(self, rule, key, msg, loc=None, detail=None, undecided=False):
         self.rule = rule
         self.key = "%s : %s" % (rule, key)
         self.msg = msg
         self.loc = loc
         self.detail = detail or {}
+        self.undecided = undecided
 
     def to_json(self):
-        return {"rule": self.rule, "key": self.key, "msg": self.msg, "loc": self.loc, "detail": self.detail}
+        return {"rule": self.rule, "key": self.key, "msg": self.msg, "loc": self.loc, "detail": self.detail, "undecided": self.undecided}
 
 
 class RuleResult:
@@ -114,14 +119,21 @@ class RuleResult:
         self.obligations += n
         self.discharged += n
 
-    def violate(self, key, msg, loc=None, detail=None):
+    def violate(self, key, msg, loc=None, detail=None, undecided=None):
+        """positive evidence by default; `undecided=True` (or a message that says `(fail closed)`) marks a
+        could-not-classify outcome"""
         self.obligations += 1
-        self.violations.append(Violation(self.rule, key, msg, loc, detail))
+        if undecided is None:
+            undecided = "(fail closed)" in msg
+        self.violations.append(Violation(self.rule, key, msg, loc, detail, undecided=bool(undecided)))
+
+    def undecided(self, key, msg, loc=None, detail=None):
+        self.violate(key, msg, loc, detail, undecided=True)
 
     def missing_anchor(self, what):
         self.obligations += 1
         self.violations.append(Violation(self.rule, "anchor-missing:%s" % what,
-                                         "anchor %s not found in the fact base (fail closed)" % what))
+                                         "anchor %s not found in the fact base" % what, undecided=True))
 
     def sample(self, s):
         if len(self.samples) < 6:
@@ -133,7 +145,7 @@ class RuleResult:
         if len(self.instances) < floor:
             self.obligations += 1
             self.violations.append(Violation(self.rule, "below-floor",
-                                             "rule matched %d instances, confirmed floor is %d (fail closed)" % (len(self.instances), floor)))
+                                             "rule matched %d instances, confirmed floor is %d" % (len(self.instances), floor), undecided=True))
         return self
 
 
@@ -158,6 +170,16 @@ class Ctx:
             self._facts[cfg] = Facts(d, cfg) if status == "ok" else None
         return self._facts[cfg]
 
+    def inliner(self, keep=(), pred=None, cfg="default"):
+        """an Inliner (rules/sym.py) over the facts of `cfg`: private helpers are expanded in place by the tracer"""
+        from .sym import Inliner
+        key = (cfg, tuple(sorted(keep)), id(pred))
+        if not hasattr(self, "_inliners"):
+            self._inliners = {}
+        if key not in self._inliners:
+            self._inliners[key] = Inliner(self.facts(cfg), keep=keep, pred=pred)
+        return self._inliners[key]
+
 
 def load_known():
     p = os.path.join(VERIF, "known_findings.json")
@@ -180,17 +202,20 @@ def run_property(pid, rules, tier, level_text, assumptions, extra=None):
             results.append(out)
     known = load_known()
     known_keys = {k["key"]: k for k in known.get("known", []) if k["property"] == pid}
-    viol, known_hit = [], []
+    viol, known_hit, undecided = [], [], []
     for res in results:
         for v in res.violations:
             if v.key in known_keys:
                 known_hit.append((v, known_keys[v.key]))
+            elif v.undecided:
+                undecided.append(v)
             else:
                 viol.append(v)
     print("== %s tier=%s repo=%s tree=%s files=%d" % (pid, tier, ctx.repo, ctx.tree, ctx.nfiles))
     for res in results:
-        print("  rule %-18s instances=%-4d floor=%-3d obligations=%-4d discharged=%-4d violations=%d  -- %s" % (
-            res.rule, len(res.instances), res.floor, res.obligations, res.discharged, len(res.violations), res.desc))
+        print("  rule %-18s instances=%-4d floor=%-3d obligations=%-4d discharged=%-4d violations=%d undecided=%d  -- %s" % (
+            res.rule, len(res.instances), res.floor, res.obligations, res.discharged,
+            len([v for v in res.violations if not v.undecided]), len([v for v in res.violations if v.undecided]), res.desc))
         for i in res.info:
             print("     info: %s" % i)
     for v, k in known_hit:
@@ -206,6 +231,9 @@ def run_property(pid, rules, tier, level_text, assumptions, extra=None):
         print("  %s" % v.msg)
         print("    at %s   key: %s" % (v.loc, v.key))
         print("VIOLATION property=%s replay=%s" % (pid, rp))
+    for v in undecided:
+        print("UNDECIDED property=%s %s" % (pid, v.msg))
+        print("    at %s   ukey: %s" % (v.loc, v.key))
     n_inst = sum(len(r.instances) for r in results)
     distinct = len(set(i for r in results for i in r.instances))
     obligations = sum(r.obligations for r in results)
@@ -232,7 +260,8 @@ def run_property(pid, rules, tier, level_text, assumptions, extra=None):
             "samples": samples,
             "rules": [{"rule": r.rule, "what": r.desc, "instances": len(r.instances), "floor": r.floor,
                        "obligations": r.obligations, "discharged": r.discharged,
-                       "violations": [v.key for v in r.violations], "info": r.info[:20],
+                       "violations": [v.key for v in r.violations if not v.undecided],
+                       "undecided": [v.key for v in r.violations if v.undecided], "info": r.info[:20],
                        "instance_keys": r.instances[:60]} for r in results],
             "known_findings_hit": [v.key for v, _ in known_hit],
             "analysed": {"repo": ctx.repo, "tree_hash": ctx.tree, "source_files_hashed": ctx.nfiles,
@@ -246,11 +275,20 @@ def run_property(pid, rules, tier, level_text, assumptions, extra=None):
         "wall_s": round(time.time() - t0, 2),
         "violations": len(viol),
     }
+    ev["coverage"]["undecided"] = len(undecided)
+    ev["coverage"]["undecided_keys"] = [v.key for v in undecided][:40]
     if extra:
         ev["coverage"].update(extra)
     if not no_ev:
         with open(os.path.join(VERIF, "evidence", "%s.json" % pid), "w") as f:
             json.dump(ev, f, indent=1)
-    print("== %s: %d rule instances, %d/%d obligations discharged, %d known findings, %d violations, %.1fs" % (
-        pid, n_inst, discharged, obligations, len(known_hit), len(viol), time.time() - t0))
-    return 1 if viol else 0
+    print("== %s: %d rule instances, %d/%d obligations discharged, %d known findings, %d violations, %d undecided, %.1fs" % (
+        pid, n_inst, discharged, obligations, len(known_hit), len(viol), len(undecided), time.time() - t0))
+    if viol:
+        return 1
+    if undecided and tier == "thorough":
+        # the thorough tier is strict: rules that lost their anchors must be re-anchored before the check says anything
+        print("CHECKER-ERROR: %d rule instance(s) could not be decided on this tree (anchors lost / shapes not understood); "
+              "this is not a VIOLATION of %s" % (len(undecided), pid))
+        return 2
+    return 0
